@@ -35,6 +35,15 @@ CLAIMED["C15"] = {
     "design_ref": "DESIGN.md section 3 (C15)",
 }
 
+CLAIMED["C11"] = {
+    "engine": "hist_cache",
+    "level": "exploration",
+    "text": "Seeded search over histories of 8..50 operations on model graphs built by the real process_objects (hand-written graph with every parameter kind incl. parametric transforms, a prior scene, and the model part of ~50 CLI-emitted configurations incl. their variational family and ELBO): direct / view / concatenation / transformed assignment, in-place step + notification, distribution draws, proposals and rejections by the real operators, requires_grad toggles, interleaved with reads of seeded subsets of observables (each read clears dirty flags) and evaluations aborted by an injected exception. Every read is compared with the same observable of a model freshly built from JSON with the current base values; an update that succeeds on a fresh model must not raise.",
+    "note": "Trusted: the fresh rebuild as definition of the correct value (C11 is about caching, not about the value); states whose values cannot be handed to a constructor (mixed batched/unbatched shapes after draws) are not judged and are counted; shapes that differ only by leading singleton dimensions are treated as equal values.",
+    "technique": "deterministic simulation: seeded scheduler interleaving updates and reads over the dirty-flag state space, fresh-rebuild oracle, injected evaluation aborts",
+    "design_ref": "DESIGN.md section 3 (C11)",
+}
+
 NOT_APPLICABLE = {
     "C01": "pure function of (tree, branch lengths, model, alignment): no schedule, clock, fault, crash point or history for a simulator to own",
     "C02": "metamorphic relation between two encodings of the same input; no state, schedule or fault involved",
@@ -56,7 +65,6 @@ NOT_APPLICABLE = {
 PENDING = {
     # claimed in DESIGN.md, check not registered yet (moved to CLAIMED once it runs clean)
     "C03": "history clause is a simulation target (DESIGN.md); check under construction, not yet registered",
-    "C11": "simulation target (DESIGN.md); check under construction, not yet registered",
 }
 
 
